@@ -238,3 +238,70 @@ Definition C05_expire_always_refreshes_stmt : Prop :=
     | Some row => r2 = Ret (RVal (nth c row VNull))
     | None => r2 = Raise ENotFound
     end.
+
+(* ---------------------------------------------------------------- histories with injected database errors *)
+(* the operation a history entry runs, with or without an injected fault *)
+Definition unfault (o : op) : op := match o with OFault _ o' => o' | _ => o end.
+
+(* guard04 / guard05, ALSO allowing `OFault n o` for every n and every o the base guard allows
+   (nothing is excluded: `OFault 1 (OCreate ..)`, the failing re-read after the INSERT, is allowed too) *)
+Definition guard04f (o : op) : bool := guard04 (unfault o).
+Definition guard05f (o : op) : bool := guard05 (unfault o).
+Definition no_unpickle_f (o : op) : bool := match unfault o with OUnpickle _ => false | _ => true end.
+Definition read_ok_f (o : op) : bool := match unfault o with ORead _ c => Nat.ltb c 3 | _ => true end.
+
+Definition C04_unique_faults_stmt : Prop :=
+  forall cfg ops o1 o2 k id,
+    forallb guard04f ops = true ->
+    let s := run cfg ops in
+    held s o1 -> held s o2 -> current s o1 -> current s o2 ->
+    is_row s o1 k id -> is_row s o2 k id ->
+    assoc id (t_rows (tbl s k)) <> None ->
+    o1 = o2.
+
+Definition C04_get_returns_held_faults_stmt : Prop :=
+  forall cfg ops o k id id' tok s',
+    forallb guard04f ops = true ->
+    let s := run cfg ops in
+    held s o -> current s o -> is_row s o k id ->
+    assoc id (t_rows (tbl s k)) <> None ->
+    step cfg s (OGet k id) = (Ret (RObj id' tok), s') ->
+    id' = id /\ tok = slot_of s o /\ tok <> None.
+
+Definition C04_select_returns_held_faults_stmt : Prop :=
+  forall cfg ops o k flt keep res id tok s',
+    forallb guard04f ops = true ->
+    let s := run cfg ops in
+    held s o -> current s o -> is_row s o k id ->
+    step cfg s (OSelect k flt keep) = (Ret (RObjs res), s') ->
+    In (id, tok) res -> tok = slot_of s o /\ tok <> None.
+
+Definition C04_cached_is_current_faults_stmt : Prop :=
+  forall cfg ops k id o,
+    forallb guard04f ops = true ->
+    let s := run cfg ops in
+    (In (id, o) (c_strong (cch s k)) \/ In (id, o) (c_weak (cch s k))) -> i_obsolete (get_inst s o) = false.
+
+Definition C05_coherent_faults_stmt : Prop :=
+  forall cfg ops o,
+    forallb guard05f ops = true -> forallb read_ok_f ops = true ->
+    let s := run cfg ops in
+    held s o -> current s o -> cache_values (i_k (get_inst s o)) = true -> shows_row s o.
+
+(* C06: whatever made a call raise, no instance is registered for a row that was not inserted
+   (histories without unpickling: a pickle outlives its row) *)
+Definition C06_no_unregistered_rows_stmt : Prop :=
+  forall cfg ops k id o,
+    forallb guard04f ops = true -> forallb no_unpickle_f ops = true ->
+    let s := run cfg ops in
+    (In (id, o) (c_strong (cch s k)) \/ In (id, o) (c_weak (cch s k))) ->
+    i_obsolete (get_inst s o) = false /\ assoc id (t_rows (tbl s k)) <> None.
+
+(* ... and every held instance still shows its stored row after a call that raised, fault or not
+   (the one-step form of C05_coherent_faults for the failing call itself) *)
+Definition C06_coherent_after_failure_stmt : Prop :=
+  forall cfg ops op e s' o,
+    forallb guard05f ops = true -> forallb read_ok_f ops = true ->
+    guard05f op = true -> read_ok_f op = true ->
+    step cfg (run cfg ops) op = (Raise e, s') ->
+    held s' o -> current s' o -> cache_values (i_k (get_inst s' o)) = true -> shows_row s' o.
